@@ -205,6 +205,20 @@ def spec_of_shell(M, sh):
                      [tuple(int(x) for x in r) for r in sh.angmom_components_cart])
 
 
+def stress_domain(profile):
+    """float-sampling domains at the edges of the stated ranges (used by the two-centre block contracts)"""
+    if profile == "far-diffuse":
+        # diffuse shells 26-30 bohr apart along one axis: exp(-mu R^2) ~ 1e-4, while exp(-R^2) underflows
+        return {"pos": (0.02, 0.05), "zero_prob": 0.0, "real": 1.5, "by_prefix": {"d": (0.3, 1.5)},
+                "real_by_prefix": {"AB_0": (26.0, 30.0, True), "AB_1": (0.0, 1.0), "AB_2": (0.0, 1.0)}}
+    if profile == "tight-close":
+        # tight shells (harmonic mean of the exponents beyond 708, where exp(-mu) underflows) a few 1e-3 .. 5e-2 bohr apart,
+        # 40-80 bohr from the origin (cancellation in anything measured from the origin grows like (a+b)|A|^2)
+        return {"pos": (2e4, 1e5), "zero_prob": 0.0, "real": 1.5, "by_prefix": {"d": (0.3, 1.5)},
+                "real_by_prefix": {"AB": (1e-3, 2e-2, True), "P": (60.0, 80.0, True), "B": (60.0, 80.0, True), "X": (0.0, 1.0, True)}}
+    return {}
+
+
 # shells tagged spherical / mixed: the Cartesian block must not depend on the tags (l differing by 0, 1, 2; either order)
 TYPE_SHAPES = [dict(la=0, lb=2, K=[1, 1], M=[1, 1], types=["spherical", "cartesian"]), dict(la=2, lb=0, K=[1, 1], M=[1, 1], types=["cartesian", "spherical"]),
                dict(la=1, lb=1, K=[1, 1], M=[1, 1], types=["spherical", "spherical"]), dict(la=2, lb=1, K=[1, 1], M=[1, 1], types=["spherical", "cartesian"]),
@@ -225,9 +239,9 @@ class OverlapBlock:
         if shape.get("profile") == "far-diffuse":
             return {"pos": (0.02, 0.05), "zero_prob": 0.0, "real": 1.5, "by_prefix": {"d": (0.3, 1.5)},
                     "real_by_prefix": {"AB_0": (26.0, 30.0, True), "AB_1": (0.0, 1.0), "AB_2": (0.0, 1.0)}}
-        if shape.get("profile") == "tight-close":
-            return {"pos": (2e3, 1e5), "zero_prob": 0.0, "real": 1.5, "real_by_prefix": {"AB": (1e-4, 3e-3, True), "P": (20.0, 40.0, True)}}
-        return {}
+        return stress_domain(shape.get("profile"))
+
+
     """Overlap.construct_array_contraction(s1, s2)[m1,c1,m2,c2] = int phi~_{s1,m1,c1} phi~_{s2,m2,c2}
     (primitive-normalised, contraction not yet normalised), callees inlined; fresh; frame."""
 
